@@ -116,6 +116,35 @@ fn handover(rng: &mut Rng, map: &Beatmap, mode: GameMode, spec: &SetSpec, small:
     Ok((chains, handovers))
 }
 
+/// The same for a gradual *performance* calculator: every step is taken on a different thread.
+#[cfg(feature = "sync")]
+fn handover_perf(rng: &mut Rng, map: &Beatmap, mode: GameMode, spec: &SetSpec) -> Result<u64, String> {
+    use rosu_pp::GradualPerformance;
+    let d = spec.without_passed().to_difficulty(mode);
+    let n_obj = map.hit_objects.len() as u32;
+    let sched: Vec<(usize, rosu_pp::any::ScoreState)> = (0..6).map(|_| (rng.usize_below(4), sets::gen_state(rng, n_obj + 1))).collect();
+    let Ok(mut reference) = GradualPerformance::new_with_mode(d.clone(), map, mode) else { return Ok(0) };
+    let want: Vec<String> = sched.iter().map(|(k, s)| dump(&reference.nth(s.clone(), *k))).collect();
+    let mut g = GradualPerformance::new_with_mode(d, map, mode).map_err(|e| format!("{e:?}"))?;
+    let mut got = Vec::new();
+    for (k, s) in sched {
+        // each step on a freshly spawned thread; the calculator is moved there and back
+        let (g2, r) = std::thread::spawn(move || {
+            let r = dump(&g.nth(s, k));
+            (g, r)
+        })
+        .join()
+        .map_err(|_| "thread panicked".to_string())?;
+        g = g2;
+        got.push(r);
+    }
+    if got != want {
+        let first = got.iter().zip(want.iter()).position(|(a, b)| a != b).unwrap_or(0);
+        return Err(format!("gradual performance handed over between threads differs from the single-thread run at step {first}"));
+    }
+    Ok(got.len() as u64)
+}
+
 #[allow(clippy::too_many_lines)]
 pub fn case(ctx: &mut Ctx, idx: u64) {
     let mut rng = Rng::for_case(ctx.seed, "C20", idx);
@@ -323,6 +352,15 @@ pub fn case(ctx: &mut Ctx, idx: u64) {
                 }
                 Ok(Err(msg)) => ctx.violation(&format!("C20/handover/{}", mode_name(mode)), &format!("{msg} | settings=[{}]", spec.describe()), Some(&texts[mi])),
                 Err(p) => ctx.violation(&format!("C20/handover-panic/{}/{}", mode_name(mode), p.sig()), &format!("{} at {}", p.msg, p.loc), Some(&texts[mi])),
+            }
+            let mut r3 = rng.fork();
+            match guard(|| handover_perf(&mut r3, map, mode, &spec)) {
+                Ok(Ok(steps)) => {
+                    ctx.evals(steps);
+                    ctx.count_n("handover_performance_steps", steps);
+                }
+                Ok(Err(msg)) => ctx.violation(&format!("C20/handover-performance/{}", mode_name(mode)), &format!("{msg} | settings=[{}]", spec.describe()), Some(&texts[mi])),
+                Err(p) => ctx.violation(&format!("C20/handover-performance-panic/{}/{}", mode_name(mode), p.sig()), &format!("{} at {}", p.msg, p.loc), Some(&texts[mi])),
             }
         }
     }
